@@ -85,7 +85,7 @@ pub fn c15_specs(thorough: bool) -> Vec<Op> {
     let elems: &[u8] = &[0, 1, 3, 8, 24, 32];
     let pushes: &[u8] = if thorough { &[0, 1, 2, 3, 5, 9, 17, 33, 45, 70] } else { &[0, 1, 3, 17, 45] };
     let caps: &[u8] = if thorough { &[255, 0, 1, 3, 40] } else { &[255, 3, 40] };
-    let extras = [MutExtra::None, MutExtra::Reserve(50), MutExtra::ExtendUnder(5), MutExtra::ExtendOver(5)];
+    let extras = [MutExtra::None, MutExtra::Reserve(50), MutExtra::ReserveExact(50), MutExtra::ExtendUnder(5), MutExtra::ExtendOver(5)];
     for kind in [MutKind::Vec, MutKind::VecRev] {
         for &elem in elems {
             for &cap in caps {
@@ -101,7 +101,7 @@ pub fn c15_specs(thorough: bool) -> Vec<Op> {
     }
     for &cap in caps {
         for &p in pushes {
-            for extra in [MutExtra::None, MutExtra::Reserve(50)] {
+            for extra in [MutExtra::None, MutExtra::Reserve(50), MutExtra::ReserveExact(50)] {
                 for end in [MutEnd::Drop, MutEnd::Unwind, MutEnd::Finalise, MutEnd::FinaliseBoxed, MutEnd::FinaliseCstr] {
                     v.push(Op::MutColl(MutSpec { kind: MutKind::Str, elem: 1, cap, pushes: p, extra, end }));
                 }
@@ -359,6 +359,9 @@ pub fn spaces_mode<'a>(prop: &'a str, mode: Mode, deadline: Instant, threads: us
                 al(24, 8),
                 al(40, 32),
                 Op::Alloc { size: 24, align: 8, zeroed: true },
+                // zeroed blocks whose size is not a multiple of their alignment (nothing beyond the block may be zeroed)
+                Op::Alloc { size: 5, align: 8, zeroed: true },
+                Op::Alloc { size: 9, align: 16, zeroed: true },
                 Op::AllocRem { extra: 1, align: 1 },
                 Op::Grow { sel: Sel::Newest, delta: 8, align: 0, zeroed: true },
                 Op::Grow { sel: Sel::Newest, delta: 0, align: 32, zeroed: false },
